@@ -17,6 +17,7 @@ def jobs(tier):
           dict(name="reader/v2000-one-entry-per-line", ns=[2, 3] + ([4] if t else []), pin={3: 3, 4: 6}, params=dict(K_m=2, K_r=2, rad_hi=3, fmt="v2000")),
           dict(name="reader/v2000-iso-first", ns=[2, 3], pin={3: 3}, params=dict(K_m=2, K_r=1, rad_hi=3, fmt="v2000", iso_first=True))]
     js += shape_strata("harness.readers", "c02_reader", tier, quick=rs, thorough=rs, max_seconds=3000 if t else 240)
+    js.append(job("harness.readers", "c02_reader_big", "reader/v2000-120-atoms", {}, max_seconds=3000 if t else 240))
     return js
 
 
